@@ -24,6 +24,11 @@ CHECKS.update({
         text="Exploration. Hundreds of thousands of generated pairs/triples of terms (60% near-equal: same string in another kind, language tags differing in case, other lexical form of one value, xsd:string vs plain) are checked against the laws themselves: == is reflexive/symmetric/transitive and agrees with the framework's own (kind, lexical, datatype, lower(lang)) key, equal terms hash alike and collapse in sets, dict keys and a Graph, cross-kind order is bnode<variable<IRI<literal, IRIs/bnodes order as strings, sorted() of mixed collections never raises and is reproducible over permutations; every term survives copy, deepcopy, pickle (all protocols) and NodePickler unchanged, and its n3() text is read back as the same term by from_n3, the Turtle parser and the SPARQL parser.",
         note="Literal-vs-literal order is only required not to raise. For literals built with normalize=False the text read-back is judged against the normalised literal (documented construction-time normalisation).",
         ref="DESIGN.md §3 C07"),
+    "C09": dict(
+        technique="runtime monitoring: differential against an independent XSD 1.1 reference (lexical grammars + lexical->value maps) over generated Python values and grammar-generated lexical forms",
+        text="Exploration. (py) generated Python ints, floats from random bit patterns, Decimals, bools, strs, dates, times, datetimes with every whole-minute offset, timedeltas and Durations go through Literal(v): documented datatype, lexical form accepted by the reference grammar, toPython() equal and of the same type. (lex) grammar-generated valid forms for each of the 30 recognised XSD datatypes: not flagged ill-typed, value equals the reference value, normalised form valid / same value / idempotent (constructor and normalize()). (eq) eq() against Python equality of the mapped values inside a value family, and term equality implies eq. (ill) invalid forms must not crash. Six listed findings (datetime range limits, 24:00:00, >6 fraction digits, xsd:date time zones, zero yearMonthDuration, negative mixed durations) are carved out by input predicates.",
+        note="The reference (rv/model/xsdref.py) is self-tested on XSD spec examples at setup. Whitespace-padded forms and a bytes-value constructor are not judged.",
+        ref="DESIGN.md §3 C09"),
     "C17": dict(
         technique="runtime monitoring: bind/qname histories with two-way-map invariants and expand(compact(x)) = x checked at every quiescent point",
         text="Exploration. Generated histories of bind() with all flag combinations over nested/overlapping namespaces, interleaved with qname/curie/compute_qname(_strict)/normalizeUri/n3 probes, Turtle parses, serialisations that generate prefixes and reset(), on both stores; after each step the listing and both lookups must agree and every compact form must use a currently bound prefix and expand back. All short bind histories are enumerated.",
